@@ -14,6 +14,10 @@ CLAIMS = {
          "Decides the mechanism: every device WriteAt receiver comes from Storage.Writable(); Writable() implementations return a file only on the !readOnly edge; ReadOnly maps to flags without write bits and reaches the backend's readOnly field; every Writable() error is propagated; every iso9660/squashfs mutator (incl. OpenFile for each write flag, Finalize, File.Write) explored with the workspace != \"\" edges refused reaches no host/device mutation and no success return; from ~80 reading entry points (derived from the FileSystem/File/Table/Partition interfaces, OpenFile folded with O_RDONLY) no WriteAt/Writable()/os mutation is reachable; every constructor and Disk.Partition/WritePartitionContents passes Writable() before success. Does not decide byte equality of the image; says nothing about no-op mutators on FAT/ext4 that succeed without writing.",
          "Assumes CHA soundness (no reflection/unsafe reaching writes), that a caller-supplied Storage honours its own mode, and that io.Writer arguments of reading functions are the caller's sink. Path-insensitive except for constant folding.",
          "DESIGN.md §4 C11"),
+ "C14": ("call-graph reachability (CHA) with constant folding of reproducible=true + forward slice of the start offset",
+         "Decides the mechanism: from the three FAT constructors explored with reproducible=true, every exported method of the FAT FileSystem/File types and gpt/mbr Table.Write, no clock/RNG/UUID/env/pid/tempdir/goroutine/select/map-range is reachable except through timestamp.GetTime (whose clock read is shown unreachable when SOURCE_DATE_EPOCH parses) and on the GUID==\"\" edge; the volume's start offset flows only into I/O offsets; Disk.CreateFilesystem passes spec.Reproducible. Does not compare bytes of two runs.",
+         "Assumes non-module callees other than the listed sources are deterministic functions of their arguments; CHA soundness.",
+         "DESIGN.md §4 C14"),
 }
 
 NOT_APPLICABLE = {
